@@ -70,7 +70,22 @@ def flex_rules():
     if len(parts) < 2:
         raise RuntimeError('lexer.l: no rules section')
     head, body = parts[0], parts[1]
-    defs = re.findall(r'^(\w+)\s+(\[\S+)\s*$', head, re.M)
+    # name definitions (alpha [a-zA-Z_], num {digit}+ ...): expanded in the patterns below, so that their names and their nesting are immaterial
+    rawdefs = dict(re.findall(r'^([A-Za-z_]\w*)[ \t]+(\S+)[ \t]*$', head.split('%{')[0] + head.split('%}')[-1] if '%}' in head else head, re.M))
+    def expand(pat, depth=0):
+        if depth > 8:
+            return pat
+        return re.sub(r'\{([A-Za-z_]\w*)\}', lambda m: '(' + expand(rawdefs[m.group(1)], depth + 1) + ')' if m.group(1) in rawdefs else m.group(0), pat)
+    def tidy(pat):
+        # (x) around a single bracket expression or a single bracket expression with + adds nothing
+        prev = None
+        while prev != pat:
+            prev = pat
+            pat = re.sub(r'\((\[[^\]\[()]*\])\)', r'\1', pat)
+            pat = re.sub(r'\((\[[^\]\[()]*\]\+)\)(?![*+?])', r'\1', pat)
+        return pat
+    defs = []
+    helpers = _static_helpers(head + '\n' + (parts[2] if len(parts) > 2 else ''))
     xconds = re.findall(r'^%x\s+(\w+)', head, re.M)
     rules, block, lines = [], None, body.split('\n')
     k = 0
@@ -98,8 +113,40 @@ def flex_rules():
         depth = _braces(action)
         while depth > 0 and k < len(lines):
             action += '\n' + lines[k]; depth += _braces(lines[k]); k += 1
-        rules.append((conds, pat, action.strip()))
+        rules.append((conds, tidy(expand(pat)), _inline(action.strip(), helpers)))
     return dict(rules=rules, defs=defs, xconds=xconds)
+
+
+def _static_helpers(code):
+    """file-static functions of the scanner's C code: name -> (parameter names, body text)"""
+    out = {}
+    for m in re.finditer(r'\bstatic\s+(?:inline\s+)?[\w:<>\*&\s]+?\b(\w+)\s*\(([^)]*)\)\s*\{', code):
+        k, depth = m.end(), 1
+        while k < len(code) and depth:
+            depth += {'{': 1, '}': -1}.get(code[k], 0); k += 1
+        params = [re.findall(r'\w+', x)[-1] for x in m.group(2).split(',') if re.findall(r'\w+', x) and x.strip() != 'void']
+        out[m.group(1)] = (params, code[m.end():k - 1])
+    return out
+
+
+def _inline(action, helpers, depth=0):
+    """calls of file-static helpers in a rule's action replaced by the helper's body (arguments substituted textually): what the readers below
+    look for (BEGIN, tracker.newline, the returned token, the OLD-syntax test) is then in the text wherever the maintainers keep it"""
+    if depth > 3 or not helpers:
+        return action
+    def sub(m):
+        name = m.group(2)
+        if name not in helpers:
+            return m.group(0)
+        params, body = helpers[name]
+        args = [a.strip() for a in m.group(3).split(',')] if m.group(3).strip() else []
+        if len(args) != len(params):
+            return m.group(0)
+        for p_, a_ in zip(params, args):
+            body = re.sub(r'\b%s\b' % re.escape(p_), a_, body)
+        return ('{ %s }' % body) if not m.group(1) else body.strip()     # `return f(x);` becomes the body (which returns itself)
+    new = re.sub(r'(return\s+)?\b(\w+)\s*\(([^()]*)\)\s*;', sub, action)
+    return _inline(new, helpers, depth + 1) if new != action else new
 
 
 def _action_class(pat, action):
@@ -169,7 +216,7 @@ def comment_rules():
 
 def lex_rules():
     """the INITIAL-condition rules of lexer.l for coq/theories/LexModel.v: the literal rules (text, token) in file order, the patterns of all
-    other rules (sorted: the only ties between them and the literals are decided by the three order flags), the definitions, and the flags:
+    other rules with their name definitions expanded (sorted: the only ties between them and the literals are decided by the three order flags), and the flags:
     every literal before the identifier rule, every literal before the catch-all dot, {num} before the floating-point rule"""
     F = flex_rules()
     lits, others, pos = [], [], {}
@@ -190,12 +237,13 @@ def lex_rules():
         others.append(pat); pos[pat] = idx
     last_lit = max(i for _, _, i in lits)
     flag = lambda pat: 'true' if pat in pos and last_lit < pos[pat] else 'false'
-    num_first = 'true' if '{num}' in pos and '{num}("."{num})?([eE]("+"|"-")?{num})?' in pos and pos['{num}'] < pos['{num}("."{num})?([eE]("+"|"-")?{num})?'] else 'false'
+    NUM, FLT, IDENT = '[0-9]+', '[0-9]+("."[0-9]+)?([eE]("+"|"-")?[0-9]+)?', '[a-zA-Z_][a-zA-Z0-9_$#]*'
+    num_first = 'true' if NUM in pos and FLT in pos and pos[NUM] < pos[FLT] else 'false'
     out = ['(* generated by tools/gen_lex.py from src/lexer.l — do not edit *)', 'From Coq Require Import List String.', 'Import ListNotations.', 'Local Open Scope string_scope.',
            'Definition gen_literals : list (string * string) :=', '  [' + ';\n   '.join('(%s, %s)' % (_cq(t), _cq(k)) for t, k, _ in lits) + '].',
            'Definition gen_other_rules : list string :=', '  [' + ';\n   '.join(_cq(p) for p in sorted(others)) + '].',
            'Definition gen_defs : list (string * string) :=', '  [' + '; '.join('(%s, %s)' % (_cq(a), _cq(b)) for a, b in sorted(F['defs'])) + '].',
-           'Definition gen_literals_before_identifier : bool := %s.' % flag('{alpha}{idchr}*'),
+           'Definition gen_literals_before_identifier : bool := %s.' % flag(IDENT),
            'Definition gen_literals_before_dot : bool := %s.' % flag('.'),
            'Definition gen_num_before_float : bool := %s.' % num_first]
     _write('Gen_LexRules.v', '\n'.join(out) + '\n')
